@@ -44,11 +44,11 @@ def gconv(api, rng, alpha, nonempty_prefix):
         n = rng.randint(1, 4)
         recs = []
         for i in range(n):
-            with_syn = rng.random() < 0.55
+            # synonyms on either side independently: records with only URI synonyms, only CURIE synonyms, both, none
             recs.append(spec.Rec(
                 rstr(rng, alpha, 1 if nonempty_prefix else 0, 3), rstr(rng, alpha, 0, 5),
-                tuple(rstr(rng, alpha, 1, 3) for _ in range(rng.randint(1, 2))) if with_syn else (),
-                tuple(rstr(rng, alpha, 1, 5) for _ in range(rng.randint(0, 2))) if with_syn else (),
+                tuple(rstr(rng, alpha, 1, 3) for _ in range(rng.randint(1, 2))) if rng.random() < 0.45 else (),
+                tuple(rstr(rng, alpha, 1, 5) for _ in range(rng.randint(1, 2))) if rng.random() < 0.45 else (),
                 rstr(rng, alpha, 0, 6) if rng.random() < 0.5 else None,
             ))
         if spec.is_unique(recs) and not any(spec.self_clash(r) for r in recs):
@@ -77,6 +77,10 @@ def features(recs):
     syn = [bool(r.psyn or r.usyn) for r in recs]
     if any(syn):
         f.add("syn")
+    if any(r.usyn and not r.psyn for r in recs):
+        f.add("usyn-only")
+    if any(r.psyn and not r.usyn for r in recs):
+        f.add("psyn-only")
     if any(syn) and not all(syn):
         f.add("mixed")
     return f
